@@ -12,6 +12,7 @@ LEVEL_TEXT = ("The closed-form effect of the fault-free structural calls (Spec.s
 LEVEL_NOTE = ("Trusted: Lean kernel, standard axioms; the mirror lean/Anytree/Model/Forest.lean; hooks do nothing in this "
               "property (fault-free calls). Non-node arguments to LightNodeMixin classes are outside the model (the "
               "property restricts the TreeError clause to NodeMixin-based classes).")
+MODULES = ['Anytree.Props.C02', 'Anytree.Props.C02b']
 THEOREMS = [
     ("Anytree.Props.C02.setParent_eq_spec", "full"),
     ("Anytree.Props.C02.delChildren_eq_spec", "full"),
@@ -26,8 +27,21 @@ THEOREMS = [
     ("Anytree.Props.C02.setChildren_effect", "full"),
     ("Anytree.Props.C02.setChildren_refusal", "full"),
     ("Anytree.Props.C02.checkChildren_eq_firstBad", "full"),
+    ("Anytree.Props.C02.setChildren_res_eq_spec", "full"),
+    ("Anytree.Props.C02.setChildren_eq_spec_gen", "full"),
+    ("Anytree.Props.C02.setChildren_loopError", "full"),
+    ("Anytree.Props.C02.setChildren_loopError_state", "full"),
+    ("Anytree.Props.C02.ctor_eq_spec", "full"),
+    ("Anytree.Props.C02.ctor_eq_spec_gen", "full"),
+    ("Anytree.Props.C02.exec_res_eq_spec", "full"),
+    ("Anytree.Props.C02.setChildren_typeError_iff", "full"),
+    ("Anytree.Props.C02.setChildren_treeError_iff", "full"),
+    ("Anytree.Props.C02.setChildren_loopError_iff", "full"),
+    ("Anytree.Props.C02.setChildren_ok_iff", "full"),
+    ("Anytree.Props.C02.firstBad_none_iff", "full"),
+    ("Anytree.Props.C02.firstBad_some_iff", "full"),
 ]
-NOT_COVERED = ["the mirror's outcome for a children assignment that the specification refuses with LoopError (the restore path) and ctor_eq_assignments are not proved in Lean; both are compared against the closed-form specification by the correspondence run"]
+NOT_COVERED = ['where the specification refuses a children assignment with LoopError the theorems claim the result class only: the links the code leaves behind are proved to be Spec.restored (setChildren_loopError_state), which differs from the pre-state exactly in finding K3']
 PREDICATE_SPEC = True
 RULE = ("every ordered labelled forest over k nodes (quick 3, thorough 4) x every call (children sequences up to length "
         "3 quick / 3 thorough, sampled 1/4 for k=4), both flavours; plus seeded random fault-free histories up to length "
